@@ -305,3 +305,46 @@ ob("C13", "K3.input_eval.values", {"nvals": R(3, 3), "target_kind": R(0, 1), "na
    assumes=["shim: eval in cdd.compound.sync_properties runs the real builtin outside the tracer (see K3.input_eval)"],
    bound="--input-eval with evaluated values %r (repeated members, members that compare equal across types such as 0/False and 1/1.0, unsorted members): the target receives the Literal of "
          "exactly the evaluated members, in order" % (VALSETS[1:],))(sync_eval)
+
+
+# K5: the target is a KEYWORD-ONLY parameter: positional defaults and the other keyword-only defaults are untouched -------------------------------------------
+def sync_kwonly(npos, npd, nkw, j, same_name, has_value, wrap):
+    from cdd.compound.sync_properties import sync_property
+    from cdd.shared.source_transformer import ast_parse
+
+    if npd > npos or j >= nkw:
+        return ""
+    pos = ["p%d" % i for i in range(npos)]
+    pos_src = [n if i < npos - npd else "%s=%d" % (n, 80 + i) for i, n in enumerate(pos)]
+    kws = ["k%d" % i for i in range(nkw)]
+    kw_src = ["%s=%d.5" % (n, i) for i, n in enumerate(kws)]
+    src = "def connect(%s):\n    return 1\n" % ", ".join(pos_src + ["*"] + kw_src)
+    in_name = kws[j] if same_name else "fresh"
+    in_src = "class Config(object):\n    %s: int%s\n" % (in_name, " = 30" if has_value else "")
+    input_ast, output_ast, before = ast_parse(in_src, filename="<in>"), ast_parse(src, filename="<out>"), ast.parse(src)
+    try:
+        out = sync_property(False, "Config." + in_name, input_ast, "<in>", "connect." + kws[j], "Optional[{output_param}]" if wrap else None, output_ast)
+    except (AssertionError, NotImplementedError) as e:
+        return "sync_property refused a valid request: %s: %s" % (type(e).__name__, e)
+    f0, f1 = before.body[0], out.body[0]
+    if [a.arg for a in f1.args.args] != pos or [_dump(a) for a in f0.args.args] != [_dump(a) for a in f1.args.args]:
+        return "a positional parameter changed: %s -> %s" % (ast.unparse(f0.args), ast.unparse(f1.args))
+    if [ast.unparse(d) for d in f0.args.defaults] != [ast.unparse(d) for d in f1.args.defaults]:
+        return "default of ANOTHER (positional) parameter changed: %r -> %r" % ([ast.unparse(d) for d in f0.args.defaults], [ast.unparse(d) for d in f1.args.defaults])
+    if len(f1.args.kwonlyargs) != nkw or len(f1.args.kw_defaults) != nkw:
+        return "number of keyword-only parameters/defaults changed: %s" % ast.unparse(f1.args)
+    for i in range(nkw):
+        if i == j:
+            want = "%s: %s" % (in_name, "Optional[int]" if wrap else "int")
+            if ast.unparse(f1.args.kwonlyargs[i]) != want:
+                return "the keyword-only target renders as %r, expected %r" % (ast.unparse(f1.args.kwonlyargs[i]), want)
+        else:
+            if _dump(f0.args.kwonlyargs[i]) != _dump(f1.args.kwonlyargs[i]) or ast.unparse(f0.args.kw_defaults[i]) != ast.unparse(f1.args.kw_defaults[i]):
+                return "another keyword-only parameter or its default changed: %s -> %s" % (ast.unparse(f0.args), ast.unparse(f1.args))
+    return ""
+
+
+ob("C13", "K5.kwonly_target", {"npos": R(0, 2), "npd": R(0, 2), "nkw": R(1, 3), "j": R(0, 2), "same_name": BOOL, "has_value": BOOL, "wrap": BOOL}, enum=True, pre="npd <= npos and j < nkw",
+   T=600, funcs=FUNCS, bound="function with 0..2 positional parameters (0..2 of them defaulted) and 1..3 defaulted keyword-only parameters; the target is ANY keyword-only parameter; input = class "
+   "attribute with the same or another name, with/without value, wrap on/off (solver-enumerated): positional parameters and defaults untouched, the other keyword-only parameters and defaults "
+   "untouched, the target takes the input's name and annotation")(sync_kwonly)
